@@ -59,6 +59,11 @@ def adequate(stmts):
             if isinstance(n, ast.Subscript):
                 for c in ast.walk(n.slice):
                     in_slice.add(id(c))
+            # a small dimension in the shape tuple of a table constructor is a column count (np.zeros((0, 4))), no threshold on the circuit size
+            if isinstance(n, ast.Call) and isinstance(n.func, ast.Attribute) and n.func.attr in ('zeros', 'full', 'ones', 'empty') and n.args \
+                    and isinstance(n.args[0], ast.Tuple):
+                for c in n.args[0].elts:
+                    in_slice.add(id(c))
         for c in ast.walk(st):
             if isinstance(c, ast.Constant) and type(c.value) is int and c.value not in (0, 1):
                 if not (id(c) in in_slice and 0 <= c.value <= 9):
@@ -268,6 +273,61 @@ class LogArr(IntArr):
         return LogArr([f(x) for x in self.v], self.clock)
 
 
+def _lognd():
+    from .ndarr import NDArr
+
+    class LogND(NDArr):
+        """one-dimensional integer table of the array stand-in (kvstatic/ndarr.py) that records its element stores like LogArr does"""
+        def __init__(self, vals, clock):
+            super().__init__(vals)
+            self.clock = clock
+            self.stores = []
+
+        def __setitem__(self, k, val):
+            nd = self._nd_index(k)
+            if nd is not None:
+                from .ndarr import _flat
+                idxs = list(_flat(nd))
+            else:
+                sels = self._selectors(k)
+                if len(sels) != 1:
+                    raise ModelError('minieval: store with more than one subscript into a one-dimensional table')
+                t, v = sels[0]
+                idxs = [v] if t == 'i' else list(v)
+            super().__setitem__(k, val)
+            tick = self.clock.tick()
+            for i in idxs:
+                x = self.d[i]
+                if isinstance(x, bool) or not isinstance(x, int):
+                    try:
+                        x = self.d[i] = int(x)
+                    except (TypeError, ValueError):
+                        raise ModelError('minieval: non-integer stored into an integer table')
+                self.stores.append((i, x, tick))
+    return LogND
+
+
+def _np_nd(clock):
+    """`np` for the vector form of the block: the array stand-in of kvstatic/ndarr.py, with logging one-dimensional tables"""
+    from . import ndarr
+    LogND = _lognd()
+
+    def mk(r):
+        return LogND(r.d, clock) if r.ndim == 1 else r
+
+    def zeros(shape, dtype=None):
+        return mk(ndarr._full(shape, 0))
+
+    def full(shape, val, dtype=None):
+        return mk(ndarr._full(shape, int(val)))
+
+    def asarray(x, dtype=None):
+        r = ndarr.NDArr(x)
+        return mk(r)
+    ns = ndarr.numpy_ns(zeros=zeros, full=full, asarray=asarray, array=asarray)
+    return ns, LogND
+
+
 def _np(clock):
     def shape1(shape):
         if isinstance(shape, (tuple, list)):
@@ -373,10 +433,19 @@ def run(init):
     stmts = block(init)
     if not adequate(stmts):
         return None
-    findings = {}
-    nev = 0
     cls = getattr(init, '_parent', None)
     modtree = getattr(cls, '_parent', None)
+    try:
+        return _run_mode(stmts, cls, modtree, False)
+    except ModelError:
+        # the vector form of the block (index arrays over all ops at once, np.where, .any()): the same evaluation with the array stand-in of
+        # kvstatic/ndarr.py; outside that subset as well -> ModelError, the structural rules decide
+        return _run_mode(stmts, cls, modtree, True)
+
+
+def _run_mode(stmts, cls, modtree, nd):
+    findings = {}
+    nev = 0
 
     def fail(rule, msg, desc):
         findings.setdefault(rule, (msg, desc))
@@ -399,7 +468,16 @@ def run(init):
                     heap = RefHeap(clock)
                     me = NS(ops=[list(o) for o in ops], zero_idx=Z, tmp_idx=T, tmp2_idx=T2, ppi_offset=ppi, ppo_offset=ppo, c_locs_len=total,
                             s_len=ns, circuit=c)
-                    genv = {'np': _np(clock), 'Heap': stub(lambda: heap.ns)}
+                    tables = IntArr
+                    if nd:
+                        from .ndarr import NDArr
+                        if not ops:
+                            continue
+                        me.ops = NDArr([list(o) for o in ops])
+                        npns, tables = _np_nd(clock)
+                        genv = {'np': npns, 'Heap': stub(lambda: heap.ns)}
+                    else:
+                        genv = {'np': _np(clock), 'Heap': stub(lambda: heap.ns)}
                     if isinstance(cls, ast.ClassDef):
                         minieval.bind_class(me, cls, genv)
                     if isinstance(modtree, ast.Module):
@@ -419,14 +497,16 @@ def run(init):
                     except (IndexError, KeyError, TypeError, AttributeError, ValueError, RuntimeError, AssertionError, ZeroDivisionError) as e:
                         fail('C07.level', f'raises {type(e).__name__}: {e}', desc)
                         continue
-                    _contract(c, me, ops, stem, strip, reuse, req, cmin, heap, Z, T, T2, ppi, ppo, desc, fail)
-    return {'findings': findings, 'evaluations': nev, 'circuits': N_CIRCUITS}
+                    if nd and not (isinstance(getattr(me, 'c_locs', None), tables) and isinstance(getattr(me, 'c_caps', None), tables)):
+                        raise ModelError('minieval: c_locs / c_caps are replaced by derived arrays (their stores are not recorded)')
+                    _contract(c, me, ops, stem, strip, reuse, req, cmin, heap, Z, T, T2, ppi, ppo, desc, fail, tables)
+    return {'findings': findings, 'evaluations': nev, 'circuits': N_CIRCUITS, 'form': 'vector' if nd else 'scalar'}
 
 
-def _contract(c, me, ops, stem, strip, reuse, req, cmin, heap, Z, T, T2, ppi, ppo, desc, fail):
+def _contract(c, me, ops, stem, strip, reuse, req, cmin, heap, Z, T, T2, ppi, ppo, desc, fail, tables=IntArr):
     nops = len(ops)
     # ---- ops untouched
-    if [list(o) for o in me.ops] != ops:
+    if [[int(x) for x in o] for o in me.ops] != ops:
         fail('C07.operands', 'the op table is modified by the scheduling passes (columns 2..5 also select the delay and the waveform of an operand in the simulators)', desc)
         return
     # ---- level partition
@@ -458,7 +538,7 @@ def _contract(c, me, ops, stem, strip, reuse, req, cmin, heap, Z, T, T2, ppi, pp
                 return
     # ---- regions of the lines
     c_locs, c_caps = getattr(me, 'c_locs', None), getattr(me, 'c_caps', None)
-    if not isinstance(c_locs, IntArr) or not isinstance(c_caps, IntArr):
+    if not isinstance(c_locs, tables) or not isinstance(c_caps, tables):
         fail('C08.alloc', 'c_locs / c_caps are not produced as integer tables', desc)
         return
     if heap.errors:
